@@ -175,7 +175,7 @@ def call(px, st, name, t, args, fid, fn):
             if tag == 'pos':
                 outs.append((s2, px.pos_payload(s2, args[0])))
             else:
-                s2.events.append(('panic', 'unwrap', n, t['sp'], fn, None))
+                s2.events.append(('panic', 'unwrap', n, t['sp'], fn, px.cur_site[1]))
                 outs.append((s2, ('PANIC',)))
         return outs
     if n.endswith('::transpose') and 'result::Result::<std::option::Option<T>, E>' in n:
@@ -196,7 +196,7 @@ def call(px, st, name, t, args, fid, fn):
     # ---- panics
     if n.startswith('core::panicking::') or n.endswith('::begin_panic') or 'panicking::panic' in n or n.endswith('option::unwrap_failed') \
             or n.endswith('result::unwrap_failed') or n.endswith('option::expect_failed') or 'slice::index::slice_' in n and n.endswith('_fail'):
-        st.events.append(('panic', 'explicit', n, t['sp'], fn, None))
+        st.events.append(('panic', 'explicit', n, t['sp'], fn, px.cur_site[1]))
         return [(st, ('PANIC',))]
 
     # ---- slices as subjects
@@ -218,7 +218,7 @@ def call(px, st, name, t, args, fid, fn):
                 if b:
                     outs.append((s2, px.mkref(('S', subj, lo, None, False))))
                 else:
-                    s2.events.append(('panic', 'index', n, t['sp'], fn, None))
+                    s2.events.append(('panic', 'index', n, t['sp'], fn, px.cur_site[1]))
                     outs.append((s2, ('PANIC',)))
             return outs
         if r[0] == 'int':
@@ -227,10 +227,10 @@ def call(px, st, name, t, args, fid, fn):
                 if b:
                     outs.append((s2, px.mkref(('I', subj, r))))
                 else:
-                    s2.events.append(('panic', 'index', n, t['sp'], fn, None))
+                    s2.events.append(('panic', 'index', n, t['sp'], fn, px.cur_site[1]))
                     outs.append((s2, ('PANIC',)))
             return outs
-        st.events.append(('panic', 'index?', n, t['sp'], fn, None))
+        st.events.append(('panic', 'index?', n, t['sp'], fn, px.cur_site[1]))
         return [(st, ('call', n, tuple(args), st.uid())), (st.copy(), ('PANIC',))]
     if n.endswith('slice::<impl [T]>::iter'):
         return [(st, ('sliceiter', px.subject_of(st, args[0])))]
@@ -346,6 +346,17 @@ def call(px, st, name, t, args, fid, fn):
         b = px.deref_value(st, args[1])
         return [(st, ('un', 'Not', eqterm(a, b)))]
 
+    # ---- Vec operations with an index precondition (panics-unless)
+    m = re.search(r'vec::Vec::<T, A>::(insert|remove|swap_remove)$', n)
+    if m:
+        ok = index_from_search(px, st, args, m.group(1))
+        outs = px.opaque_call(st, n, t, args, effects=True)
+        if not ok:
+            s2 = st.copy()
+            s2.events.append(('panic', 'vec-index', n, t['sp'], fn, px.cur_site[1]))
+            outs.append((s2, ('PANIC',)))
+        return outs
+
     # ---- numeric conversions kept symbolic but pure
     if PURE_RE.search(n) and not MUTATOR_RE.search(n):
         if n.endswith('::binary_search') or n.endswith('::binary_search_by_key') or n.endswith('::binary_search_by'):
@@ -359,6 +370,71 @@ def call(px, st, name, t, args, fid, fn):
     if n.endswith('::collect') or n.endswith('::into_boxed_slice'):
         return [(st, pure(n, args))]
     return None
+
+
+def vec_place(px, st, v):
+    for _ in range(6):
+        if v[0] == 'pure' and v[1].split('::')[-1] in ('deref', 'deref_mut', 'as_slice', 'as_ref', 'borrow') and v[2]:
+            v = v[2][0]
+        elif v[0] == 'call' and v[1].endswith('deref_mut') and v[2]:
+            v = v[2][0]
+        else:
+            break
+    return px.canon(st, ('P', v))
+
+
+def index_from_search(px, st, args, op):
+    """SUM discharge rule: the index of Vec::insert is the Err payload (of remove: the Ok payload) of a binary_search on
+    the same vector with no mutation of it in between."""
+    if len(args) < 2:
+        return False
+    idx = args[1]
+    want = 'neg' if op == 'insert' else 'pos'
+    if idx[0] != want or idx[1][0] != 'call' or not re.search(r'::binary_search(_by|_by_key)?$', idx[1][1]):
+        return False
+    c = idx[1]
+    target = vec_place(px, st, args[0])
+    if vec_place(px, st, c[2][0]) != target:
+        return False
+    # no mutating call on the same place between the search and now
+    seen = False
+    for ev in st.events[:-1]:      # the last event is the insert/remove call itself
+        if ev[0] == 'call' and ev[1] == c[1] and ev[2] == c[2]:
+            seen = True
+            continue
+        if seen and ev[0] == 'call' and MUTATOR_RE.search(ev[1]) and ev[2] and vec_place(px, st, ev[2][0]) == target:
+            return False
+        if seen and ev[0] in ('store',) and px.is_prefix(ev[1], target):
+            return False
+    return seen
+
+
+PANICKY_RE = re.compile(r'''(
+    vec::Vec::<T,\ A>::(insert|remove|swap_remove|split_off|drain)$|VecDeque.*::(insert|remove|swap)$|
+    slice::<impl\ \[T\]>::(split_at|split_at_mut|copy_from_slice|clone_from_slice|swap|rotate_left|rotate_right|chunks|chunks_exact|windows|copy_within|select_nth_unstable)$|
+    ::(unwrap|expect|unwrap_err|expect_err)$|impl\ std::ops::Index(Mut)?<I>\ for|as\ std::ops::Index(Mut)?<.*>>::index(_mut)?$|
+    str::<impl\ str>::(split_at|split_at_mut)$|::from_digit$|::to_digit$|cell::RefCell<T>::(borrow|borrow_mut)$|
+    iter::Iterator::step_by$|::abs$|::pow$|string::String::(insert|insert_str|remove|truncate|split_off|drain|replace_range)$|
+    BTreeMap.*as\ std::ops::Index|HashMap.*as\ std::ops::Index
+)''', re.X)
+
+
+def totality(name):
+    """SUM totality column: 'total' | 'panicky' | 'diverges' | 'unknown'"""
+    n = name
+    if n.startswith('core::panicking::') or 'panicking::panic' in n or n.endswith('::begin_panic') or n.endswith('unwrap_failed') or n.endswith('expect_failed') \
+            or n.endswith('process::abort') or n.endswith('process::exit') or n.endswith('intrinsics::abort'):
+        return 'diverges'
+    if PANICKY_RE.search(n):
+        return 'panicky'
+    if PURE_RE.search(n) or MUTATOR_RE.search(n) or FMT_RE.search(n):
+        return 'total'
+    if re.search(r'(as std::ops::Try>::branch$|::from_residual$|::map_err$|::ok$|::map$|::or_else$|::or$|::map_or$|::map_or_else$|::unwrap_or$|::unwrap_or_default$|'
+                 r'::unwrap_or_else$|::transpose$|::and_then$|::ok_or$|::ok_or_else$|::filter$|::copied$|::cloned$|::peek$|::next$|::any$|::all$|::collect$|'
+                 r'RangeInclusive::<Idx>::(contains|new)$|Range::<Idx>::contains$|::serialize_str$|::deserialize_str$|::deserialize_string$|::deserialize_any$|'
+                 r'::custom$|::into_boxed_slice$|::iter$|::get$|::first$|::last$|::fold$|::for_each$|::next_back$|::size_hint$|::drop$|::write_char$)', n):
+        return 'total'
+    return 'unknown'
 
 
 def iter_id(px, st, a):
@@ -592,6 +668,18 @@ def decide_bool(px, st, v):
             t, f = shp.split_product(len(lit), masks)
             return split_state(st, subj, t, f)
         return None
+    if k == 'bin' and v[1] == 'Lt' and v[3][0] == 'int' and v[2][0] == 'pos' and v[2][1][0] in ('call', 'ok'):
+        # index-from-search: Ok(i) of a binary search over a static array of length N implies i < N
+        c = v[2][1]
+        while c[0] == 'ok':
+            c = c[1]
+        if c[0] == 'call' and re.search(r'::binary_search(_by|_by_key)?$', c[1]) and c[2]:
+            a0 = c[2][0]
+            if a0[0] == 'ref' and a0[1][0] == 'ST':
+                n = px.p.static_len(a0[1][1])
+                if n is not None and n == v[3][1]:
+                    px.search_bounds_used.add(a0[1][1])
+                    return [(True, st)]
     if k == 'bin' and v[1] in CMP:
         op, a, b = v[1], v[2], v[3]
         if a[0] == 'int' and b[0] != 'int':
